@@ -181,3 +181,8 @@ def _value_from(I, ci, args):
             raise Unsupported('Value::from(%r)' % (pv,))
         return f
     return None
+
+
+@model('Error::msg')
+def _tera_error_msg(I, ci, m):
+    return Adt('TeraError', 0, [m])
